@@ -77,6 +77,28 @@ def read_cases(cases, model_out, rng, tier):
                     v = rng.choice([0, 1, 0x7fff, 0x8000, 0xffff, 0xfff0, 9, 0x100])
                     bb[k:k + 2] = v.to_bytes(2, 'little')
                     out.append({'line': 'R %s %s' % (idx, bytes(bb).hex()), 'cls': c['cls'], 'kind': 'R', 'mode': 'u16'})
+    # hostile lengths with data behind them: for one encoding per class, every aligned 32-bit and 16-bit position behind the
+    # base header is overwritten with lengths above any documented maximum, and filler bytes follow the object so that
+    # a decoder that believes the length really copies that much
+    ntail = 8192 if tier == 'quick' else 70000
+    seen = set()
+    for c, m in zip(cases, model_out):
+        if c['kind'] != 'W' or c['mode'] != 'api' or not m.startswith('W ok ') or c['cls'] in seen or '?' in m.split(' ')[2]:
+            continue
+        seen.add(c['cls'])
+        idx = c['line'].split(' ')[1]
+        b = bytes.fromhex(m.split(' ')[2])
+        lim = min(len(b), 16 + (96 if tier == 'quick' else 400))
+        for k in range(16, lim - 3, 4):
+            for v in ((1536, 0xfff0) if tier == 'quick' else (1536, 0xfff0, 0x10001, 0x7fffffff, 0xffffffff)):
+                bb = bytearray(b)
+                bb[k:k + 4] = v.to_bytes(4, 'little')
+                out.append({'line': 'RT %s %s %d' % (idx, bytes(bb).hex(), ntail), 'cls': c['cls'], 'kind': 'R', 'mode': 'hostile32'})
+        for k in range(16, lim - 1, 2):
+            for v in ((1536,) if tier == 'quick' else (1536, 0xfff0)):
+                bb = bytearray(b)
+                bb[k:k + 2] = v.to_bytes(2, 'little')
+                out.append({'line': 'RT %s %s %d' % (idx, bytes(bb).hex(), ntail), 'cls': c['cls'], 'kind': 'R', 'mode': 'hostile16'})
     return out
 
 
@@ -147,7 +169,7 @@ def coverage_common(res):
     distinct = len(set(c['line'] for c in cases if c['kind'] != 'F' and len(c['line'].split()) > 2))
     return {
         'evaluations': len(cases), 'distinct_nontrivial': distinct,
-        'rule': 'per class: fresh object, default/API-populated/stale-length states (scalars from boundary sets incl. the signature, payload lengths 0..17, 255..257, 65535.., representable in the length member in API mode), their encodings read back exactly, with trailing bytes, truncated at a random offset, with byte / aligned 16- and 32-bit substitutions. Non-trivial = distinct case line that sets at least one member or carries bytes.',
+        'rule': 'per class: fresh object, default/API-populated/stale-length states (scalars from boundary sets incl. the signature, payload lengths 0..17, 255..257, 65535.., representable in the length member in API mode), their encodings read back exactly, with trailing bytes, truncated at a random offset, with byte / aligned 16- and 32-bit substitutions; and, for one encoding per class, every aligned 32-/16-bit position behind the base header overwritten with a length above any documented maximum (1536, 0xfff0, ...) with 8192 (thorough: 70000) filler bytes behind the object, so that a believed length really copies. Non-trivial = distinct case line that sets at least one member or carries bytes.',
         'input_distribution': dist, 'model_outcomes': errs,
         'samples': [c['line'][:200] for c in cases[1:4]] + [c['line'][:200] for c in cases if c['kind'] == 'R'][:2],
     }
